@@ -116,10 +116,12 @@ def _observables(with_state, shots):
     return obs
 
 
-def _run(spec, mask, p, with_state=False, shots=0, dt=10):
+def _run(spec, mask, p, with_state=False, shots=0, dt=10, n_traj=1):
     import pulser
 
     cfg = {"dt": dt, "eval": [1.0], "precision": 1e-9, "ordering": p is not None}
+    if n_traj > 1:
+        cfg["n_trajectories"] = n_traj
     noise = pulser.NoiseModel(state_prep_error=0.2, p_false_pos=0.0, p_false_neg=0.0) if mask is not None else None
     script = {"uniform": [seams.bad_mask_uniform(mask)]} if mask is not None else {}
     with seams.pulser_np_random(**script):
@@ -222,6 +224,16 @@ def run_case(case):
                 bad_t = {q: (round(base["occ"][1.0][q], 6), round(got["occ"][1.0][q], 6)) for q in spec0["ids"]}
                 sig = "relabel" if p is None else ("optimiser" if pi == list(range(n)) else "relabel+optimiser")
                 return result(False, sig=f"{sig}|{case['kind']}", msg=f"{label}: per-atom results differ from the base run by {d:.3e} > {tol:.1e}; occupation(base, got) by name at t=1: {bad_t}; energy {base['energy']} vs {got['energy']}", outcome="diff")
+            if not with_state and p is not None and case["kind"] in ("dmm", "local"):
+                # the same (noise-free or SPAM) trajectory simulated twice in one run: the average must equal the single run
+                try:
+                    res2 = _run(spec, mask, p, n_traj=2)
+                except Exception as e:
+                    return result(False, sig=f"raises|n_trajectories=2|{type(e).__name__}", msg=f"{label} n_trajectories=2: {type(e).__name__}: {e}", outcome="raise")
+                transitions += 2
+                d2 = _diff(base, _by_name(res2))
+                if d2 > tol:
+                    return result(False, sig=f"repeated-trajectory|{case['kind']}", msg=f"{label}: with n_trajectories=2 (the same trajectory twice) the averaged per-atom results differ from the single run by {d2:.3e}", outcome="reps")
             if with_state:
                 st = runner.get_at(res, "state", 1.0)
                 if abs(float(st.norm()) - 1) > 1e-6:
